@@ -243,34 +243,38 @@ def main():
             print('  failed obligation: unit=%s %s [%s]' % (u['id'], o['label'] or o['desc'], o['name']))
             print('VIOLATION property=%s replay=%s%s' % (prop, path, tail))
         sys.exit(1)
-    if infra and not new_failures and prop == 'C19':
-        # a loop without a loop contract inside a function a C19 unit depends on: the obligation `<function>.unwind.<k>` does not exist
-        # on the unchanged tree (no such loop) and fails now.  The abstract set model cannot follow a scan over unregistered elements,
-        # so the candidate is replayed natively (real headers, counting comparator); only a failing input makes it a violation.
-        loops = [m for m in infra if 'loop without (sufficient) loop contract' in m and m.startswith(('fs.', 'ss.'))]
-        if loops:
-            exe = os.path.join(P.BUILD, 'native_cost_%d' % os.getpid())
-            rc, out, err, dt = P.run(['g++', '-std=c++17', '-O1', '-DAMC_NONSTD_FEATURES', '-I' + os.path.join(P.REPO, 'include'),
-                                      os.path.join(P.VERIF, 'replay', 'native_cost.cpp'), '-o', exe], timeout=300, mem_gb=8)
-            if rc == 0:
-                rc2, out2, err2, dt2 = P.run([exe], timeout=300, mem_gb=8)
-                try:
-                    os.unlink(exe)
-                except OSError:
-                    pass
-                fails = [l for l in out2.splitlines() if l.startswith('FAIL ')]
-                if rc2 == 1 and fails:
-                    os.makedirs(os.path.join(P.VERIF, 'replays'), exist_ok=True)
-                    import re as _re
-                    path = os.path.join(P.VERIF, 'replays', _re.sub(r'\W+', '_', 'C19_' + loops[0].split(':')[-1].strip())[:150] + '.json')
-                    json.dump({'property': prop, 'obligation': loops[0].split(': ')[-1], 'obligation_text': 'every loop of a function under contract is closed by a loop contract (unwinding assertion); comparator calls of a position search stay within 2*ceil(log2(n+1)) + 4',
-                               'verifier_output': loops, 'native': {'reproduced': True, 'program': 'replay/native_cost.cpp (real headers of %s, counting comparator)' % P.REPO,
-                                                                    'failing_inputs': fails[:12], 'output_tail': out2[-1500:]}}, open(path, 'w'), indent=1)
-                    ev['violations'] = 1
-                    json.dump(ev, open(os.path.join(P.VERIF, 'evidence', prop + '.json'), 'w'), indent=1)
-                    print('  failed obligation: %s; replayed natively: %s' % (loops[0], fails[0]))
-                    print('VIOLATION property=%s replay=%s' % (prop, path))
-                    sys.exit(1)
+    # A loop without a loop contract inside a function that a unit of this property depends on: the obligation `<function>.unwind.<k>`
+    # does not exist on the unchanged tree (no such loop) and fails now.  On its own that is undecided (a harmless new loop is no
+    # violation).  For C19 (a scan over unregistered elements is outside the abstract set model) and C15 (the element categories of
+    # the proofs have non-throwing moves) the candidate is replayed natively on the real headers; only a failing input makes it a violation.
+    NATIVE = {'C19': (('fs.', 'ss.'), 'native_cost.cpp', ['c++17'], 'comparator calls of a lookup / position search stay within the bounds of the property (counting comparator)'),
+              'C15': (('mem14.',), 'native_mem.cpp', ['c++14', 'c++11', 'c++17'], 'the algorithm behaves as its standard namesake, all-or-nothing on a throw (live-object ledger, every throw index)')}
+    if infra and not new_failures and prop in NATIVE:
+        prefixes, srcname, stds, what = NATIVE[prop]
+        loops = [m for m in infra if 'loop without (sufficient) loop contract' in m and m.startswith(prefixes)]
+        for std in (stds if loops else []):
+            exe = os.path.join(P.BUILD, 'native_%s_%d' % (prop, os.getpid()))
+            rc, out, err, dt = P.run(['g++', '-std=' + std, '-O1', '-DAMC_NONSTD_FEATURES', '-I' + os.path.join(P.REPO, 'include'),
+                                      os.path.join(P.VERIF, 'replay', srcname), '-o', exe], timeout=300, mem_gb=8)
+            if rc != 0:
+                continue
+            rc2, out2, err2, dt2 = P.run([exe], timeout=300, mem_gb=8)
+            try:
+                os.unlink(exe)
+            except OSError:
+                pass
+            fails = [l for l in out2.splitlines() if l.startswith('FAIL ')]
+            if rc2 == 1 and fails:
+                os.makedirs(os.path.join(P.VERIF, 'replays'), exist_ok=True)
+                path = os.path.join(P.VERIF, 'replays', re.sub(r'\W+', '_', prop + '_' + loops[0].split(':')[-1].strip())[:150] + '.json')
+                json.dump({'property': prop, 'obligation': loops[0].split(': ')[-1], 'obligation_text': 'every loop of a function under contract is closed by a loop contract (unwinding assertion); ' + what,
+                           'verifier_output': loops, 'native': {'reproduced': True, 'program': 'replay/%s (real headers of %s, -std=%s)' % (srcname, P.REPO, std),
+                                                                'failing_inputs': fails[:12], 'output_tail': out2[-1500:]}}, open(path, 'w'), indent=1)
+                ev['violations'] = 1
+                json.dump(ev, open(os.path.join(P.VERIF, 'evidence', prop + '.json'), 'w'), indent=1)
+                print('  failed obligation: %s; replayed natively (-std=%s): %s' % (loops[0], std, fails[0]))
+                print('VIOLATION property=%s replay=%s' % (prop, path))
+                sys.exit(1)
     if infra and not new_failures:
         for m in infra:
             print('UNDECIDED: ' + m)
